@@ -102,6 +102,15 @@ void explore13(Options const& o, std::vector<Shim*> const& shims, std::vector<Sh
       rec.add_states(S.size(), S.size(), S.size() * 2);
       }
       sweep_un_set(s, SQ_OPS[oi], Sneg, o.threads, rec, ob | (2ull << 48), [&](i64 x, i64 got, u64 ord, LocalViol& lv) { c.val(s, oi, x, got, ord, lv); });
+      // errno preset to EDOM / ERANGE before every call
+      for( int ev : { 33, 34 } )
+        {
+        LocalViol lv(rec);
+        for( size_t i = 0; i < S.size(); i += 3 ) { i64 g = s->fm_un_env(SQ_OPS[oi], S[i], ev); EnvViol hv { lv, ev }; c.val(s, oi, S[i], g, ob | (6ull << 48) | (static_cast<u64>(ev) << 40) | i, hv); }
+        for( i64 m = 0; m < 4096; ++m ) { i64 x = m * m * 7 + m; i64 g = s->fm_un_env(SQ_OPS[oi], x, ev); EnvViol hv { lv, ev }; c.val(s, oi, x, g, ob | (7ull << 48) | (static_cast<u64>(ev) << 40) | static_cast<u64>(m), hv); }
+        for( i64 x : { -1ll, -65536ll, -(1ll << 40) } ) { i64 g = s->fm_un_env(SQ_OPS[oi], x, ev); EnvViol hv { lv, ev }; c.val(s, oi, x, g, ob | (8ull << 48) | (static_cast<u64>(ev) << 40) | static_cast<u64>(-x), hv); }
+        u64 n = S.size() / 3 + 4096 + 3; rec.add_states(n, n, n); rec.count("calls_with_errno_preset", n);
+        }
       // two-call histories with aliased arguments (state kept between calls)
       sweep_alias_histories(s, SQ_OPS[oi], -LIM47, LIM47 - 1, rec, ob | (5ull << 48), [&](i64 x, i64 got, u64 ord, HistViol& hv) { c.val(s, oi, x, got, ord, hv); });
       // arguments just below (and just above) the squares of k = 2^15*j +- t: x*2^16 = k^2 - t^2, the rounding boundary of every
@@ -151,6 +160,9 @@ void replay13(Options const& o, Shim* s, Recorder& rec)
       i64 k = s->fm_constarg_value(0, ki), cv = s->fm_un_constarg(ops[oi2], ki), lo = s->fm_un(ops[oi2], k - 1), hi = s->fm_un(ops[oi2], k + 1);
       if( !C13::ok(k, cv) || cv < lo || cv > hi ) rec.viol(rec.cls("C13.sqrt.constant_argument_breaks_monotonicity_or_accuracy"), 0, [&]{ return ex1(s, SQ_N[oi2], "constant argument", {{"x",to_s(k)}}, "in [" + to_s(lo) + "," + to_s(hi) + "]", to_s(cv), o.rcase, o.rin); });
       rec.add_states(1,1,1); return; }
+  if( o.rcase == "envval" )
+    { int ev = static_cast<int>(parse_i64(o.rin.at(0))); int oi2 = static_cast<int>(parse_i64(o.rin.at(2))); i64 x2 = parse_i64(o.rin.at(3));
+      c.val(s, oi2, x2, s->fm_un_env(SQ_OPS[oi2], x2, ev), 0, d); rec.add_states(1,1,1); return; }
   int oi = static_cast<int>(parse_i64(o.rin.at(0))); i64 x = parse_i64(o.rin.at(1));
   if( o.rcase == "val" ) { c.val(s, oi, x, s->fm_un(SQ_OPS[oi], x), 0, d); i64 out; s->fm_un_range(SQ_OPS[oi], x, 1, &out); c.val(s, oi, x, out, 0, d);
                            if( x >= 0 ) { i64 r = static_cast<i64>(std::llround(std::sqrt(static_cast<long double>(x)))); if( r * r == x && s->fm_un(SQ_OPS[oi], x) != r * 256 ) rec.viol(c.c_square[oi], 0, [&]{ return ex1(s, SQ_N[oi], "exact square", {{"x",to_s(x)}}, to_s(r * 256), to_s(s->fm_un(SQ_OPS[oi], x)), o.rcase, o.rin); }); } }
